@@ -63,6 +63,8 @@ def run_case(case, rng):
     live_abs = bool(any(M.absorbing[i] and (np.abs(M.arr.ER[i]).max() > 0 or not np.allclose(M.arr.T[i, :, i][M.arr.avail[i]], 1.0))
                         for i in range(len(S))))
     mode = rng.choice(["controller", "controller", "bpi", "ga"])
+    if sp.meta.get("special") in ("det", "full") and rng.random() < 0.5:
+        mode = "bpi"      # sparse dynamics with (near-)deterministic observations: where bounded policy iteration adds escape nodes
     case.family = mode
     case.params = dict(n=len(S), actions=len(A), obs=len(OL), gamma=gamma, live_absorbing=live_abs,
                        special=sp.meta.get("special"))
@@ -221,6 +223,16 @@ def run_case(case, rng):
         val = float(val.detach().numpy()) if hasattr(val, "detach") else float(val)
         ref = F.eval_fsc(M, psi, eta, absorb=True)
         ref_raw = F.eval_fsc(M, psi, eta, absorb=False)
+        if mode == "bpi":
+            # the whole (node, state) value table that comes with the result is the evaluation of the RETURNED controller
+            tab = case.call("bpi.state_controller_value", lambda: np.array(res.state_controller_value, dtype=float), facts=facts)
+            if tab is not case.FAIL and tab.shape == ref.shape:
+                case.count("bpi_final_tables_compared")
+                badt = np.argwhere(np.abs(tab - ref) > tol)
+                case.check(len(badt) == 0, "bpi:reported-value!=exact-evaluation-of-returned-controller",
+                           lambda: f"state_controller_value at (node,state)={badt[0].tolist()}: {tab[tuple(badt[0])]!r} vs {ref[tuple(badt[0])]!r} "
+                                   f"(raw-dynamics reference {ref_raw[tuple(badt[0])]!r})",
+                           equals_reference_without_absorption=bool(np.abs(tab - ref_raw).max() <= tol), **facts)
         s0 = np.array(pomdp.initial_state_vec)
         want = float(init @ ref @ s0)
         want_raw = float(init @ ref_raw @ s0)
